@@ -140,12 +140,16 @@ func genC19(t *rapid.T) C19Case {
 		}
 		c.CompLine = BS(cl)
 		// args as the shell would pass them, or arbitrary
-		switch rapid.IntRange(0, 3).Draw(t, "argsk") {
+		switch rapid.IntRange(0, 5).Draw(t, "argsk") {
 		case 0:
 			c.Argv = nil
 			c.ArgvNil = true
 		case 1:
 			c.Argv = Toks{}
+		case 4:
+			c.Argv = Toks{"./prog"}
+		case 5:
+			c.Argv = Toks{"./prog", rapid.SampledFrom([]string{"", "x", "--"}).Draw(t, "args2")}
 		case 2:
 			parts := strings.Fields(cl)
 			last := ""
